@@ -203,6 +203,30 @@ class SM:
     def replies(self, S, which=None):
         return [n.idx for n in S.nodes if S.ev[n.idx] and S.ev[n.idx][0] == "reply" and (which is None or S.ev[n.idx][1] == which)]
 
+    def writes(self, S, *suffix):
+        """Live nodes with a statement (or call destination) assigning a place whose field-name chain
+        ends with `suffix` (e.g. 'schedule', 'last_update_time')."""
+        out = []
+        for n in S.nodes:
+            if n.idx not in S.live:
+                continue
+            bl = n.block
+            hit = False
+            for s_ in bl["s"]:
+                if s_["k"] == "assign" and _chain_ends(s_["p"], suffix):
+                    hit = True
+            t = bl["t"]
+            if t["k"] == "call" and _chain_ends(t["dest"], suffix):
+                hit = True
+            if not hit and t["k"] == "call" and t.get("name") in ("add_assign", "sub_assign", "replace", "take", "insert", "get_or_insert_with") and t["args"]:
+                # compound assignment through a &mut borrow of the field
+                a0 = n.ctx.bv.trace_op(t["args"][0])
+                if _term_chain_ends(a0, suffix):
+                    hit = True
+            if hit:
+                out.append(n.idx)
+        return out
+
     def calls(self, S, *names):
         return [n.idx for n in S.nodes if n.term["k"] == "call" and lib.callee_is(n.term, *names) and not is_logging_span(n.term["sp"])]
 
@@ -262,6 +286,29 @@ class SM:
         return out
 
 
+def _chain(place):
+    return [e.get("n", str(e.get("i"))) for e in place.get("p", []) if e["k"] == "field"]
+
+
+def _chain_ends(place, suffix):
+    ch = _chain(place)
+    return len(ch) >= len(suffix) and tuple(ch[-len(suffix):]) == tuple(suffix)
+
+
+def _term_chain_ends(t, suffix):
+    ch = []
+    while True:
+        if t[0] in ("ref", "deref"):
+            t = t[1]
+        elif t[0] == "field":
+            ch.append(str(t[2]))
+            t = t[1]
+        else:
+            break
+    ch = ch[::-1]
+    return len(ch) >= len(suffix) and tuple(ch[-len(suffix):]) == tuple(suffix)
+
+
 # ---------------------------------------------------------------------- graph queries with edge cuts
 def reach(S, starts, cut_edges=(), cut_nodes=(), backward=False):
     cut_edges = set(cut_edges)
@@ -280,6 +327,160 @@ def reach(S, starts, cut_edges=(), cut_nodes=(), backward=False):
                 continue
             st.append(b)
     return seen
+
+
+def descends(ctx, anc):
+    while ctx is not None:
+        if ctx is anc:
+            return True
+        ctx = ctx.parent
+    return False
+
+
+def reach_in(S, starts, ctx, cut_edges=(), cut_nodes=()):
+    """Forward reachability confined to one calling context and the bodies spliced below it; the
+    context's return nodes are included but not expanded."""
+    cut_edges = set(cut_edges)
+    cut_nodes = set(cut_nodes)
+    rets = set(ctx.returns)
+    seen = set()
+    st = [s for s in starts if s not in cut_nodes]
+    while st:
+        a = st.pop()
+        if a in seen:
+            continue
+        seen.add(a)
+        if a in rets:
+            continue
+        for b in S.succ[a]:
+            if b in seen or b in cut_nodes or (a, b) in cut_edges:
+                continue
+            if not descends(S.nodes[b].ctx, ctx):
+                continue
+            st.append(b)
+    return seen
+
+
+TRY_MAP = {"Ok": "Continue", "Err": "Break", "Some": "Continue", "None": "Break"}
+
+
+def reach_pf(S, starts, cut_edges=(), cut_nodes=(), facts0=()):
+    """Forward reachability refined by a must-analysis of enum variants (E2): facts "local L of
+    context C holds variant V" are created by enum aggregates (and by `?`'s from_residual), copied by
+    moves / await results / call returns, mapped through Try::branch, killed by other assignments,
+    intersected at joins, and used to prune switches on the discriminant of that local."""
+    cut_edges = set(cut_edges)
+    cut_nodes = set(cut_nodes)
+    IN = {}
+    work = []
+    f0 = frozenset(facts0)
+    for s_ in starts:
+        if s_ not in cut_nodes:
+            IN[s_] = f0
+            work.append(s_)
+    si_cache = {}
+    while work:
+        v = work.pop()
+        facts = IN[v]
+        nd = S.nodes[v]
+        cid = nd.ctx.idx
+        bv = nd.ctx.bv
+        fd = dict(facts)
+        bl = nd.block
+        for s_ in bl["s"]:
+            if s_["k"] != "assign" or s_["p"].get("p"):
+                continue
+            l = s_["p"]["l"]
+            r = s_["r"]
+            key = (cid, l)
+            if r["k"] == "agg" and r.get("ak") == "adt":
+                ad = bv.crate.adts.get(r["d"])
+                if r["d"] in guards.STD_VARIANTS or (ad and ad["kind"] == "enum"):
+                    fd[key] = r["vn"]
+                else:
+                    fd.pop(key, None)
+            elif r["k"] == "use" and ("m" in r["o"] or "c" in r["o"]):
+                pl = r["o"].get("m") or r["o"].get("c")
+                pj = pl.get("p", [])
+                src = None
+                if not pj:
+                    src = (cid, pl["l"])
+                elif len(pj) == 2 and pj[0]["k"] == "downcast" and pj[0].get("n") == "Ready" and pj[1]["k"] == "field":
+                    src = (cid, ("rdy", pl["l"]))
+                if src is not None and src in fd:
+                    fd[key] = fd[src]
+                else:
+                    fd.pop(key, None)
+            else:
+                fd.pop(key, None)
+        t = bl["t"]
+        only = None
+        if t["k"] == "call" and not t["dest"].get("p"):
+            key = (cid, t["dest"]["l"])
+            fd.pop(key, None)
+            fd.pop((cid, ("rdy", t["dest"]["l"])), None)
+            cal = t.get("callee")
+            if cal == "std::ops::Try::branch" and t["args"]:
+                a_ = t["args"][0]
+                pl = a_.get("m") or a_.get("c")
+                if pl and not pl.get("p") and (cid, pl["l"]) in fd:
+                    m = TRY_MAP.get(fd[(cid, pl["l"])])
+                    if m:
+                        fd[key] = m
+            elif cal == "std::ops::FromResidual::from_residual":
+                dt = bv.crate.types[t["destt"]]
+                if dt.get("d") == "std::result::Result":
+                    fd[key] = "Err"
+                elif dt.get("d") == "std::option::Option":
+                    fd[key] = "None"
+        elif t["k"] == "switch":
+            sub = bv.switch_subject(nd.bi)
+            if sub is not None and not sub[0].get("p") and (cid, sub[0]["l"]) in fd:
+                only = fd[(cid, sub[0]["l"])]
+        is_ret = t["k"] == "return"
+        for w in S.succ[v]:
+            if w in cut_nodes or (v, w) in cut_edges:
+                continue
+            if only is not None:
+                si = si_cache.get(v)
+                if si is None:
+                    si = guards.switch_info(bv, nd.bi)
+                    si_cache[v] = si
+                labs = [l[2] for l in S.elabel.get((v, w), []) if l[0] == "switch" and l[1] == nd.bi]
+                names = []
+                for lab in labs:
+                    if lab == "otherwise":
+                        covered = set(a for a, _ in si.arms)
+                        names.extend([nm for val, nm in si.names.items() if val not in covered])
+                    else:
+                        names.append(si.names.get(lab, str(lab)))
+                if names and only not in names:
+                    continue
+            out = fd
+            wn = S.nodes[w]
+            if is_ret and wn.ctx is not nd.ctx:
+                # return edge: map the callee's return-place fact to the caller's destination
+                out = {k: val for k, val in fd.items() if k[0] != cid}
+                how = nd.ctx.how
+                rv = fd.get((cid, 0))
+                if rv is not None and nd.ctx.parent is wn.ctx and how[0] in ("call", "poll"):
+                    d = how[1]["dest"]
+                    if not d.get("p"):
+                        if how[0] == "call":
+                            out[(wn.ctx.idx, d["l"])] = rv
+                        else:
+                            out[(wn.ctx.idx, ("rdy", d["l"]))] = rv
+            nf = frozenset(out.items())
+            old = IN.get(w)
+            if old is None:
+                IN[w] = nf
+                work.append(w)
+            else:
+                merged = old & nf
+                if merged != old:
+                    IN[w] = merged
+                    work.append(w)
+    return set(IN)
 
 
 def path(S, starts, targets, cut_edges=(), cut_nodes=()):
